@@ -350,6 +350,10 @@ func (w *c28Worker) ddl(kind string) {
 		if sqlrig.IsConnErr(err) {
 			w.reconnect()
 		}
+		if w.stats["ddl_error_notes"] < 2 {
+			w.stats["ddl_error_notes"]++
+			w.run.c.Note("c28: " + q + " failed: " + firstLine(err.Error()))
+		}
 	}
 	if kind == "drop" {
 		// an errored drop may still have happened: it cuts the ledger either way
